@@ -1,5 +1,7 @@
 (* Runs the extracted Coq model on the same request lines the in-crate Rust driver answers. *)
 open Model
+type cstring = Model.string
+type string = Stdlib.String.t
 open Conv
 
 let flag_of = function "A" -> FAlpha | "B" -> FBeta | _ -> FExact
@@ -167,6 +169,147 @@ let do_judge (t : string list) : string =
 let do_specperft (t : string list) : string =
   match t with d :: r -> string_of_z (spec_perft (n_of_string d) (parse_game (Array.of_list r) 0)) | [] -> "BADREQ"
 
+(* ---- search ---- *)
+let flag_char = function FAlpha -> "A" | FBeta -> "B" | FExact -> "E"
+let render_event (ev : (game, move) event) : string =
+  match ev with
+  | ENode (q, g, ply, d, a, b, n, s, ri, rs) ->
+    Printf.sprintf "N%d ply=%d d=%d a=%s b=%s n=%s s=%s ri=%d rs=%s g=%s" (if q then 1 else 0) (int_of_nat ply) (int_of_nat d)
+      (string_of_z a) (string_of_z b) (string_of_n n) (b2s s) (int_of_nat ri) (hex_of_n rs) (game_fields g)
+  | ETTHit s -> "TTHIT " ^ string_of_z s
+  | ERepHit -> "REPHIT"
+  | EVerdict (m, p) -> Printf.sprintf "VERDICT %s %d" (if m then "mate" else "stalemate") (int_of_nat p)
+  | EPV (p, m) -> Printf.sprintf "PV %d %s" (int_of_nat p) (move_fields m)
+  | ETTRec (h, s, d, f, p) -> Printf.sprintf "TTREC %s %s %d %s %d" (hex_of_n h) (string_of_z s) (int_of_nat d) (flag_char f) (int_of_nat p)
+  | EPoll (k, n, st) -> Printf.sprintf "POLL %d n=%s stop=%s" (int_of_nat k) (string_of_n n) (b2s st)
+  | EStopRaised -> "STOPRAISED"
+
+let rec take n l = if n <= 0 then [] else match l with [] -> [] | x :: r -> x :: take (n - 1) r
+
+let do_searchseq (t : string list) : string =
+  let a = Array.of_list t in
+  let n = int_of_string a.(0) in
+  let i = ref 1 in
+  let tt = ref (table []) in
+  let answers = ref [] in
+  for _ = 1 to n do
+    let depth = z_of_string a.(!i) and stopk = z_of_string a.(!i + 1) and extra = n_of_string a.(!i + 2)
+    and bypass = (a.(!i + 3) = "1") and trace = int_of_string a.(!i + 4) and nh = int_of_string a.(!i + 5) in
+    i := !i + 6;
+    let hist = List.init nh (fun k -> n_of_hex a.(!i + k)) in
+    i := !i + nh;
+    let g = parse_game a !i in
+    i := !i + 21;
+    let rt = hist @ List.init (1000 - nh) (fun _ -> N0) in
+    let ans =
+      (match c_search extra stopk bypass g depth !tt rt (nat_of_int nh) with
+       | SFuel -> "OUTOFFUEL"
+       | SDone (outs, e, _) ->
+         tt := e.tbl;
+         let native = String.concat " ;; " (List.map (fun o -> string_of_coq (render_out o)) outs) in
+         let pvlen0 = (match e.pvlen with x :: _ -> int_of_nat x | [] -> 0) in
+         let row0 = (match e.pvtab with r :: _ -> r | [] -> []) in
+         let pv = String.concat "" (List.map (fun m -> move_fields m ^ ",") (take (min pvlen0 64) row0)) in
+         let best = (match row0 with m :: _ -> move_fields m | [] -> "?") in
+         let rep_same = (int_of_nat e.ridx = nh && take nh e.rtab = hist) in
+         let endl = Printf.sprintf "END ply=%d rep=%d stopping=%s nodes=%s pvlen=%d pv=%s best=%s GAME_SAME=1 REP_SAME=%s"
+             (int_of_nat e.ply) (int_of_nat e.ridx) (b2s e.stopping) (string_of_n e.nodes) pvlen0 pv best (b2s rep_same) in
+         let evs = List.rev_map render_event e.trace in
+         let tr =
+           if trace = 2 then String.concat " ;; " evs
+           else if trace = 1 then Printf.sprintf "NEV=%d H=%s" (List.length evs) (fnv (String.concat "" (List.map (fun l -> l ^ "\n") evs)))
+           else "" in
+         native ^ " || " ^ endl ^ " || " ^ tr) in
+    answers := ans :: !answers
+  done;
+  String.concat " ## " (List.rev !answers)
+
+(* ---- judging an implementation's answer to one search (Monitors.v + Spec) ---- *)
+let split_str (sep : string) (s : string) : string list =
+  (* split on a multi-character separator *)
+  let n = String.length sep and l = String.length s in
+  let rec go start i acc =
+    if i > l - n then List.rev (String.sub s start (l - start) :: acc)
+    else if String.sub s i n = sep then go (i + n) (i + n) (String.sub s start (i - start) :: acc)
+    else go start (i + 1) acc in
+  if l = 0 then [""] else go 0 0 []
+
+let words (s : string) = List.filter (fun x -> x <> "") (String.split_on_char ' ' s)
+let after_eq (s : string) = match String.index_opt s '=' with Some i -> String.sub s (i + 1) (String.length s - i - 1) | None -> s
+
+let parse_event (line : string) : (game, move) event option =
+  match words line with
+  | ("N0" | "N1" as k) :: ply :: d :: a :: b :: n :: st :: ri :: rs :: g0 :: grest ->
+    let gt = Array.of_list (after_eq g0 :: grest) in
+    Some (ENode ((k = "N1"), parse_game gt 0, nat_of_int (int_of_string (after_eq ply)), nat_of_int (int_of_string (after_eq d)),
+                 z_of_string (after_eq a), z_of_string (after_eq b), n_of_string (after_eq n), (after_eq st = "1"),
+                 nat_of_int (int_of_string (after_eq ri)), n_of_hex (after_eq rs)))
+  | ["TTHIT"; sc] -> Some (ETTHit (z_of_string sc))
+  | ["REPHIT"] -> Some ERepHit
+  | ["VERDICT"; m; p] -> Some (EVerdict ((m = "mate"), nat_of_int (int_of_string p)))
+  | ["PV"; p; m] -> Some (EPV (nat_of_int (int_of_string p), parse_move m))
+  | ["TTREC"; h; sc; d; f; p] -> Some (ETTRec (n_of_hex h, z_of_string sc, nat_of_int (int_of_string d), flag_of f, nat_of_int (int_of_string p)))
+  | ["POLL"; k; n; st] -> Some (EPoll (nat_of_int (int_of_string k), n_of_string (after_eq n), (after_eq st = "1")))
+  | ["STOPRAISED"] -> Some EStopRaised
+  | _ -> None
+
+let smove_of_uci (u : string) : smove option =
+  let l = String.length u in
+  if l < 4 || l > 5 then None else
+  let f c = Char.code c - 97 and r c = Char.code c - 49 in
+  let ok x = x >= 0 && x < 8 in
+  let f1 = f u.[0] and r1 = r u.[1] and f2 = f u.[2] and r2 = r u.[3] in
+  if not (ok f1 && ok r1 && ok f2 && ok r2) then None else
+  let pr = if l = 5 then (match u.[4] with 'n' -> Some (Some Knight) | 'b' -> Some (Some Bishop) | 'r' -> Some (Some Rook) | 'q' -> Some (Some Queen) | _ -> None) else Some None in
+  match pr with None -> None | Some p -> Some { sfrom = (z_of_int f1, z_of_int r1); sto = (z_of_int f2, z_of_int r2); spromo = p }
+
+let run_trace_monitors (hist : n list) (tr : (game, move) event list) : string list =
+  let s = mon_nodes hist tr in
+  let tag name v = if v = N0 then [] else [Printf.sprintf "%s@%s" name (string_of_n v)] in
+  tag "C06:node" s.bad06 @ tag "C06:verdict" s.bad06v @ tag "C07:missed" s.bad07m @ tag "C07:false" s.bad07f @
+  tag "C09:write-after-stop" (mon_frame tr false (n_of_int 1)) @ tag "C09:cadence" (mon_cadence tr N0 (n_of_int 1))
+
+(* judgesearch H k1..kH <game> @ <answer of one search> *)
+let do_judgesearch (t : string list) : string =
+  let (hd, ans) = split_on "@" t in
+  let a = Array.of_list hd in
+  let nh = int_of_string a.(0) in
+  let hist = List.init nh (fun k -> n_of_hex a.(1 + k)) in
+  let g = parse_game a (1 + nh) in
+  let text = String.concat " " ans in
+  let bad = ref [] in
+  let add s = bad := s :: !bad in
+  (match split_str " || " text with
+   | [native; endl; trace] | [native; endl; trace; _] ->
+     let lines = List.filter (fun l -> String.trim l <> "") (split_str " ;; " native) in
+     let has_legal = spec_has_legal g in
+     let nbest = ref 0 in
+     List.iter (fun l ->
+       match words l with
+       | "info" :: rest ->
+         let rec pv = function "pv" :: r -> r | _ :: r -> pv r | [] -> [] in
+         let ms = List.map smove_of_uci (pv rest) in
+         if List.mem None ms then add "C12:pv-syntax"
+         else if not (spec_legal_line g (List.filter_map (fun x -> x) ms)) then add "C12:pv-illegal"
+       | ["bestmove"; u] ->
+         incr nbest;
+         (match smove_of_uci u with
+          | None -> if has_legal then add "C03:bestmove-syntax"
+          | Some m -> if has_legal && not (spec_legal_line g [m]) then add "C03:bestmove-illegal")
+       | _ -> add "C12:unexpected-line") lines;
+     if !nbest <> 1 then add "C03:bestmove-count";
+     let tr_lines = List.filter (fun l -> String.trim l <> "") (split_str " ;; " trace) in
+     (match tr_lines with
+      | [] -> ()
+      | l :: _ when String.length l >= 4 && String.sub l 0 4 = "NEV=" -> ()
+      | _ ->
+        let evs = List.map parse_event tr_lines in
+        if List.mem None evs then add "trace-unparsable"
+        else List.iter add (run_trace_monitors hist (List.filter_map (fun x -> x) evs)));
+     ignore endl
+   | _ -> add "answer-malformed");
+  if !bad = [] then "OK" else "BAD " ^ String.concat " " (List.rev !bad)
+
 let do_eval (t : string list) : string = string_of_z (evaluate (parse_game (Array.of_list t) 0))
 
 let () =
@@ -185,6 +328,8 @@ let () =
        | "rekey" :: r -> print_endline (do_rekey r)
        | "eval" :: r -> print_endline (do_eval r)
        | "judge" :: r -> print_endline (do_judge r)
+       | "searchseq" :: r -> print_endline (do_searchseq r)
+       | "judgesearch" :: r -> print_endline (do_judgesearch r)
        | "wf" :: r -> print_endline (b2s (wf (parse_game (Array.of_list r) 0)))
        | "specperft" :: r -> print_endline (do_specperft r)
        | "perft" :: d :: r -> print_endline (string_of_n (perft_n (n_of_string d) (parse_game (Array.of_list r) 0)))
